@@ -1105,10 +1105,22 @@ def corpus_cases(ctx):
         {"name": "corpus-shuffle-L-skip", "ref": True, "sticky": 1,
          "ops": [op_file("in.fa", ">prot1 x\na\n>seq2 x\nACg\n>n|m3\nAAACGAG\nGCTACGC\nATTAAAT\nCTAGCAC\nCTACCGT\nGGCTGCC\nGCTADGT\nGAGCATA\nACTCT\n"),
                  op_run("esl-shuffle", ["--seed", "2", "-m", "-L", "5", "--informat", "fasta", "in.fa"])]},
+        # top level of the `easel` driver and of esl-mixdchlet (esl_subcmd.c dispatch)
+        {"name": "corpus-easel-h", "expect_ok": True, "ops": [op_run("easel", ["-h"])]},
+        {"name": "corpus-easel-help", "expect_ok": True, "ops": [op_run("easel", ["--help"])]},
+        {"name": "corpus-easel-version", "expect_ok": True, "ops": [op_run("easel", ["--version"])]},
+        {"name": "corpus-easel-noargs", "ops": [op_run("easel", [])]},
+        {"name": "corpus-easel-nosuch", "ops": [op_run("easel", ["nosuchcommand", "x"])]},
+        {"name": "corpus-easel-missing-arg", "ops": [op_run("easel", ["alistat"])]},
+        {"name": "corpus-mixdchlet-h", "expect_ok": True, "ops": [op_run("esl-mixdchlet", ["-h"])]},
+        {"name": "corpus-mixdchlet-noargs", "ops": [op_run("esl-mixdchlet", [])]},
         # esl-translate: a sequence shorter than a codon is skipped without esl_sq_Reuse(): it is glued in front of the next one
         {"name": "corpus-translate-short", "ref": True, "sticky": 1,
          "ops": [op_file("in.fa", ">a\nCC\n>b a desc\nATTG\n"), op_run("esl-translate", ["-l", "0", "-m", "--crick", "--informat", "fasta", "in.fa"])]},
     ]
+    # every entry point must print its help (option table walk: esl_opt_DisplayHelp) and exit 0
+    for tool in ENTRY_POINTS + ["esl-mixdchlet fit", "esl-mixdchlet score", "esl-mixdchlet gen", "esl-mixdchlet sample"]:
+        out.append({"name": "corpus-help-" + tool.replace(" ", "_"), "expect_ok": True, "ops": [op_run(tool, ["-h"])]})
     return out
 
 
